@@ -7,7 +7,7 @@ CONSTANTS
   D2s <- D01
   NearOffsets <- NearNone
   Weights <- W12
-  ErrKinds <- ErrApi
+  ErrKinds <- ErrApiSoft
   MaxErrors = 1
   PoissonIncs <- Inc013
   ExtAt <- Ext2
